@@ -115,6 +115,12 @@ func (p *Peer) StopReading() {
 	p.mu.Unlock()
 }
 
+// Unpark lets a reader parked by StopReading finish (end of scenario).
+func (p *Peer) Unpark() {
+	defer func() { recover() }()
+	close(p.never)
+}
+
 func (p *Peer) readLoop() {
 	defer close(p.done)
 	var r io.Reader = p.C
@@ -146,6 +152,10 @@ func (p *Peer) readLoop() {
 		if p.stopRead {
 			p.mu.Unlock()
 			<-p.never // parked: nothing drains the connection any more
+			p.mu.Lock()
+			p.readDone = true
+			p.mu.Unlock()
+			return
 		}
 		f.Seq = len(p.frames)
 		p.frames = append(p.frames, f)
